@@ -1,4 +1,5 @@
 import Proofs.Covariance
+import Proofs.Pipeline
 /-!
 # C10 — results are covariant with amplitude and sampling-rate units
 
@@ -11,6 +12,13 @@ Sampling rate: no function of the model takes `fs` or `f_range` at all — they 
 MODEL is right not to mention `fs` is what the correspondence runs (C01–C07) check.
 -/
 namespace Bycycle
+
+/-- the whole consistency-method analysis is covariant with the amplitude unit, both centrings. -/
+theorem C10_amplitude (a : Rat) (ha : 0 < a) (c : Centre) (x : List Rat) (pad : Nat) (b : List Bool) (amp : List Rat) (bd : Int) (th : CycThresh) :
+    pipelineCycles c (scaleSig a x) pad b (scaleSig a amp) bd th = (pipelineCycles c x pad b amp bd th).map (PipeOut.scaleVolts a) := by
+  cases c
+  · exact pipeline_scale_peak a ha x pad b amp bd th
+  · exact pipeline_scale_trough a ha x pad b amp bd th
 
 theorem C10_cyclepoints (a : Rat) (ha : 0 < a) (sig : List Rat) (pad : Nat) (b : List Bool) (bd : Int) :
     computeCyclepoints (scaleSig a sig) pad b bd = computeCyclepoints sig pad b bd :=
